@@ -18,6 +18,11 @@ CHECKPOINT = ("suite_checkpoint", {"n": {"quick": 4, "thorough": 50}})
 SEARCH = ("suite_search", {"n": {"quick": 160, "thorough": 3000}, "crash_n": {"quick": 6, "thorough": 100}})
 SEARCH_CRASH = ("suite_search", {"n": {"quick": 20, "thorough": 200}, "crash_n": {"quick": 8, "thorough": 150}})
 
+GRID = ("suite_grid", {"n": {"quick": 120, "thorough": 3000}})
+SAMPLING = ("suite_sampling", {"n": {"quick": 160, "thorough": 3000}, "subprocs": {"quick": 1, "thorough": 3}})
+TRANSFORMS_SMALL = ("suite_transforms", {"n": {"quick": 200, "thorough": 3000}})
+HYPERBAND_SMALL = ("suite_hyperband", {"n": {"quick": 40, "thorough": 800}})
+
 NOT_CLAIMED = {}
 
 CORE_NOTE = ("Trusted: Lean kernel; the hand-written generic oracle model (Ktm/Core.lean: create/update/endT over an arbitrary "
@@ -135,4 +140,36 @@ PROPS = {
                           "anything is reloaded) is checked on the implementation by resuming interrupted searches and by crashing before every file "
                           "write of whole searches; the window of known finding F18 is reported under C08.",
             "assumptions": ["KeyboardInterrupt-like interrupts are modelled as BaseException raised by run_trial"]},
+    "C05": {"suites": [SAMPLING, GRID, TRANSFORMS_SMALL],
+            "level_text": "Theorems (Ktm/Props/C05.lean): an enumerated assignment binds an entry iff it is active under the assignment itself and to a "
+                          "member of its value list; every random sample (any draws, seed, tried set) and every grid trial of every reachable state is an "
+                          "enumerated assignment; a Hyperband promotion keeps the parent's values; stepped value lists are the declared lattice (C14).",
+            "level_note": "partial for continuous kinds and the Bayesian optimiser: step-less Float / log-sampled Int values and _vector_to_values at the "
+                          "optimiser's bound 1.0 are validated on every issued trial (type, [min, max] up to 1e-9) but not proved (float pow, scipy). "
+                          + 'Spaces are modelled as parent-first lists of entries with numbered names and value lists (value code = index in the grid-ordered list: default first); the harness translates real HyperParameters objects to that form. Hypotheses of the theorems: distinct names and parents first (F16 / F10 were exactly violations of these; same-named entries under different conditions are exercised by the suites only).' + " Every issued trial of every suite is additionally checked by a direct monitor (exactly the active names, each value in its domain).",
+            "assumptions": ["domain of an entry = its lattice / choices / fixed value plus its default"]},
+    "C06": {"suites": [SAMPLING, HYPERBAND_SMALL],
+            "level_text": "Theorems (Ktm/Props/C06.lean): a sampled assignment is never in the tried set; giving up happens after exactly max_collisions+1 "
+                          "colliding passes (structural recursion on that fuel: no loop); along every request list the start values of a sampling oracle "
+                          "stay pairwise distinct; on exhaustion random search answers STOPPED, Hyperband IDLE only while trials run.",
+            "level_note": "The hash of the active values is modelled as the assignment itself (SHA-256 truncation and str() rendering are outside the model). "
+                          "The whole seeded random oracle is re-executed by the model from the logged PRNG draws. partial: growth of the space during the "
+                          "search (entries reported at end_trial) is checked by the suite's grow modes, the theorem is for a fixed space. " + 'Spaces are modelled as parent-first lists of entries with numbered names and value lists (value code = index in the grid-ordered list: default first); the harness translates real HyperParameters objects to that form. Hypotheses of the theorems: distinct names and parents first (F16 / F10 were exactly violations of these; same-named entries under different conditions are exercised by the suites only).',
+            "assumptions": ["hash injective on well-typed values"]},
+    "C09": {"suites": [GRID],
+            "level_text": "Theorems (Ktm/Props/C09.lean): the code's odometer step is the successor function of the enumeration of active combinations; the "
+                          "enumeration has no duplicates and starts with all defaults; in every reachable state (any workers, finishing order, failures, "
+                          "retries) trial i carries combination i; a STOPPED answer with nothing running means the trials are exactly the enumeration.",
+            "level_note": "The whole GridSearchOracle (queue, ordered id list, successor computation) runs in the model and is compared answer by answer. "
+                          "partial: spaces discovered while trials run are not covered by the theorems (the code itself does not visit the full product "
+                          "there; known findings F5a/F5b); same-named entries under different conditions are known findings F16g-*. " + 'Spaces are modelled as parent-first lists of entries with numbered names and value lists (value code = index in the grid-ordered list: default first); the harness translates real HyperParameters objects to that form. Hypotheses of the theorems: distinct names and parents first (F16 / F10 were exactly violations of these; same-named entries under different conditions are exercised by the suites only).',
+            "assumptions": []},
+    "C12": {"suites": [SAMPLING],
+            "level_text": "Theorems (Ktm/Props/C12.lean): seed schedule (one seed per sampled entry, +1 each, never reused), issued trials a function of "
+                          "history and of the generator's values at the consumed seeds only, seed state persisted across reload. The suite establishes that "
+                          "the model's inputs are complete: every PRNG draw of the implementation is logged with its seed and must be the one the model predicts.",
+            "level_note": "MT19937 (random.Random) is trusted; Bayesian GP / optimiser numerics are not modelled (same inputs => same outputs assumed for "
+                          "sklearn / scipy with fixed random_state; checked by running scenarios twice and in a fresh interpreter with another "
+                          "PYTHONHASHSEED). Known finding F14 (unseeded fill-in on Hyperband promotion after discovery).",
+            "assumptions": ["random.Random(seed) is deterministic"]},
 }
